@@ -35,8 +35,10 @@ from liquid2 import is_template_string_token
 from liquid2 import is_token_type
 from liquid2.exceptions import LiquidSyntaxError
 from liquid2.exceptions import LiquidTypeError
+from liquid2.exceptions import LiquidValueError
 from liquid2.exceptions import UnknownFilterError
 from liquid2.expression import Expression
+from liquid2.limits import MAX_STR_INT
 from liquid2.limits import to_int
 from liquid2.unescape import unescape
 
@@ -732,6 +734,26 @@ class FilteredExpression(Expression):
         return FilteredExpression(left.token, left, filters)
 
 
+def parse_integer_literal(token: Token) -> int:
+    """Return the integer denoted by INT token _token_, exactly.
+
+    INT tokens match `-?[0-9]+([eE]\\+?[0-9]+)?`. The value is computed with
+    integer arithmetic only. Going via `float` loses precision beyond 2**53
+    and overflows for exponents above 308.
+    """
+    mantissa, _, exponent = token.value.lower().partition("e")
+    if not exponent:
+        return to_int(mantissa)
+
+    exp = to_int(exponent)
+    if MAX_STR_INT != 0 and len(mantissa) + exp > MAX_STR_INT:
+        raise LiquidValueError(
+            f"integer literal exceeds the limit of {MAX_STR_INT} digits",
+            token=token,
+        )
+    return to_int(mantissa) * 10**exp
+
+
 def parse_primitive(env: Environment, token: TokenT) -> Expression:  # noqa: PLR0911
     """Parse _token_ as a primitive expression."""
     if is_token_type(token, TokenType.TRUE):
@@ -751,7 +773,7 @@ def parse_primitive(env: Environment, token: TokenT) -> Expression:  # noqa: PLR
         return Path(token, [token.value])
 
     if is_token_type(token, TokenType.INT):
-        return IntegerLiteral(token, to_int(float(token.value)))
+        return IntegerLiteral(token, parse_integer_literal(token))
 
     if is_token_type(token, TokenType.FLOAT):
         return FloatLiteral(token, float(token.value))
@@ -1227,7 +1249,7 @@ def parse_boolean_primitive(  # noqa: PLR0912
         else:
             left = Path(token, [token.value])
     elif is_token_type(token, TokenType.INT):
-        left = IntegerLiteral(token, to_int(float(token.value)))
+        left = IntegerLiteral(token, parse_integer_literal(token))
     elif is_token_type(token, TokenType.FLOAT):
         left = FloatLiteral(token, float(token.value))
     elif is_token_type(token, TokenType.DOUBLE_QUOTE_STRING):
